@@ -7,6 +7,7 @@ package main
 
 import (
 	"bufio"
+	"encoding/hex"
 	"encoding/json"
 	"fmt"
 	"io"
@@ -317,8 +318,44 @@ func queryMode(root, caseFile string) {
 	os.Stdout.WriteString("\n")
 }
 
+// match mode: lines `<hex pattern|-> <hex name>`; with pattern "-" the name is a path prefix and the line asks for
+// escapeGlob(prefix). Output: `1` / `0` / `err` (filepath.Match), or the hex of the escaped string.
+func matchMode() {
+	in := bufio.NewReaderSize(os.Stdin, 1<<20)
+	out := bufio.NewWriter(os.Stdout)
+	defer out.Flush()
+	for {
+		line, err := in.ReadString('\n')
+		f := strings.Fields(line)
+		if len(f) == 2 {
+			nb, _ := hex.DecodeString(f[1])
+			if f[0] == "-" {
+				fmt.Fprintln(out, hex.EncodeToString([]byte(jsondb.VerifEscapeGlob(string(nb)))))
+			} else {
+				pb, _ := hex.DecodeString(f[0])
+				ok, e := filepath.Match(string(pb), string(nb))
+				switch {
+				case e != nil:
+					fmt.Fprintln(out, "err")
+				case ok:
+					fmt.Fprintln(out, "1")
+				default:
+					fmt.Fprintln(out, "0")
+				}
+			}
+		}
+		if err != nil {
+			break
+		}
+	}
+}
+
 func main() {
 	log.SetOutput(io.Discard)
+	if len(os.Args) >= 2 && os.Args[1] == "match" {
+		matchMode()
+		return
+	}
 	if len(os.Args) >= 4 && os.Args[1] == "exec" {
 		execMode(os.Args[2], os.Args[3])
 		return
